@@ -14,6 +14,35 @@ from qce_circuit.utilities.custom_exceptions import (
 from qce_circuit.utilities.custom_warnings import OperationNotFoundWarning
 
 
+_START_TIME_MEMO: Optional[dict] = None
+"""Memo shared by the (recursive) start-time evaluation of a single top-level query. None when no query is running."""
+
+
+def query_scoped_cache(method):
+    """
+    Decorator, memoizes method results only for the duration of the outermost call.
+    Start times depend on upstream operations and on (dynamic) duration settings,
+    results can therefore not outlive the query that computed them.
+    """
+    def wrapper(self, duration: float) -> float:
+        global _START_TIME_MEMO
+        outermost: bool = _START_TIME_MEMO is None
+        if outermost:
+            _START_TIME_MEMO = {}
+        try:
+            key = (id(self), duration)
+            if key not in _START_TIME_MEMO:
+                # Keeps reference to self, such that its id can not be reused within this query
+                _START_TIME_MEMO[key] = (self, method(self, duration))
+            return _START_TIME_MEMO[key][1]
+        finally:
+            if outermost:
+                _START_TIME_MEMO = None
+    wrapper.cache_clear = lambda: None
+    wrapper.__doc__ = method.__doc__
+    return wrapper
+
+
 @unique
 class QubitChannel(Enum):
     """
@@ -165,7 +194,7 @@ class RelationLink(IRelationLink[TDurationComponent], Generic[TDurationComponent
     # endregion
 
     # region Interface Methods
-    @lru_cache(maxsize=None)
+    @query_scoped_cache
     def get_start_time(self, duration: float) -> float:
         """:return: Start time based on reference and self-duration."""
         if self.reference_node is None:
@@ -374,7 +403,7 @@ class MultiRelationLink(IRelationLink[TCircuitOperation], Generic[TCircuitOperat
     # endregion
 
     # region Interface Methods
-    @lru_cache(maxsize=None)
+    @query_scoped_cache
     def get_start_time(self, duration: float) -> float:
         """:return: Start time based on reference and self-duration."""
         relation_link: RelationLink = RelationLink(
